@@ -320,7 +320,10 @@ class _RawConfigParser(configparser.RawConfigParser):
     self._sections = collections.OrderedDict()
 
   def optionxform(self, option):
-    option = option.strip()
+    # Normalise keys in the same way as _ConfigParserDict (which stores them). This makes the parser's
+    # own duplicate-option check, has_option() and remove_option() agree with what is actually stored:
+    # 'A - B' and 'A-B' or 'f(r, A)' and 'f(r,A)' are the same key.
+    option = option.strip().replace(' ', '').replace('\t', '')
     return option
 
 class ConfigParser(object):
